@@ -70,19 +70,20 @@ type ReplayFile struct {
 
 // Run is the per-process state.
 type Run struct {
-	ID        string
-	Tier      string
-	Seed      uint64
-	Shard     int
-	Shards    int
-	OutDir    string
-	replay    *ReplayFile
-	start     time.Time
-	mu        sync.Mutex
-	res       Result
-	hashes    map[uint64]struct{}
-	perName   map[string]int
-	replayHit bool
+	ID          string
+	Tier        string
+	Seed        uint64
+	Shard       int
+	Shards      int
+	OutDir      string
+	replay      *ReplayFile
+	start       time.Time
+	mu          sync.Mutex
+	res         Result
+	hashes      map[uint64]struct{}
+	perName     map[string]int
+	replayHit   bool
+	checkpoints int
 }
 
 func envInt(k string, def int) int {
@@ -269,6 +270,7 @@ func (r *Run) Checkpoint(check string, c any) {
 	if r.OutDir == "" {
 		return
 	}
+	r.checkpoints++
 	b, err := json.Marshal(c)
 	if err != nil {
 		return
@@ -276,6 +278,14 @@ func (r *Run) Checkpoint(check string, c any) {
 	rf := ReplayFile{Property: r.ID, Check: check, Case: b}
 	out, _ := json.Marshal(&rf)
 	_ = os.WriteFile(filepath.Join(r.OutDir, "checkpoint.json"), out, 0o644)
+}
+
+// autoCheckpoint records every case before it is judged, so that a failure that kills the process (a panic
+// on a goroutine the library started) can be attributed; bounded per process, since it costs a file write.
+func (r *Run) autoCheckpoint(check string, c any) {
+	if r.checkpoints < 200000 {
+		r.Checkpoint(check, c)
+	}
 }
 
 func (r *Run) Violations() int { r.mu.Lock(); defer r.mu.Unlock(); return len(r.res.Violations) }
@@ -365,6 +375,7 @@ func (r *Run) replayInto(name string, c any) bool {
 func One[C any](r *Run, ck Check[C], c C) bool {
 	r.Eval()
 	r.Sample(ck.Name, c)
+	r.autoCheckpoint(ck.Name, c)
 	if err := Safe(func() error { return ck.Fn(c) }); err != nil {
 		r.Violate(ck.Name, c, err)
 		return false
@@ -430,6 +441,7 @@ func Rapid[C any](r *Run, t *testing.T, ck Check[C], n int, gen func(*rapid.T) C
 		if lastErr == nil {
 			r.Sample(ck.Name, c)
 		}
+		r.autoCheckpoint(ck.Name, c)
 		if err := Safe(func() error { return ck.Fn(c) }); err != nil {
 			lastCase, lastErr = c, err
 			rt.Fatalf("%v", err)
